@@ -36,6 +36,10 @@ pub struct SinkSpec {
     pub param: u16,
     /// write calls that return Interrupted
     pub interrupts: Vec<u16>,
+    /// 0: an injected interruption repeats at most 3 times in a row; otherwise it repeats `burst` times in a row (the `Write`
+    /// contract puts no bound on that), always followed by progress
+    #[serde(default)]
+    pub burst: u16,
 }
 
 #[derive(Clone, Debug, Hash, Serialize, Deserialize, PartialEq)]
@@ -43,6 +47,9 @@ pub struct Case {
     pub ops: Vec<W>,
     pub sink: SinkSpec,
     pub end_with_flush: bool,
+    /// the writer is dropped by stack unwinding (a panic in the caller's code) instead of at the end of its scope
+    #[serde(default)]
+    pub unwind: bool,
 }
 
 #[derive(Default)]
@@ -59,6 +66,7 @@ pub struct Sink {
     spec: SinkSpec,
     st: Rc<RefCell<SinkState>>,
     consecutive: usize,
+    burst_left: usize,
 }
 
 impl Write for Sink {
@@ -69,9 +77,18 @@ impl Write for Sink {
         if s.first_call_len == 0 {
             s.first_call_len = buf.len();
         }
+        if self.burst_left > 0 {
+            self.burst_left -= 1;
+            s.interrupted += 1;
+            return Err(std::io::Error::new(std::io::ErrorKind::Interrupted, "interrupted (injected burst)"));
+        }
         if self.spec.interrupts.contains(&(call as u16)) && self.consecutive < 3 {
             self.consecutive += 1;
             s.interrupted += 1;
+            if self.spec.burst > 0 && self.consecutive == 1 {
+                self.burst_left = self.spec.burst as usize - 1;
+                self.consecutive = 3;
+            }
             return Err(std::io::Error::new(std::io::ErrorKind::Interrupted, "interrupted (injected)"));
         }
         self.consecutive = 0;
@@ -225,7 +242,7 @@ pub fn run_case(c: &Case, buf: usize, buffered: bool) -> CaseResult {
     let mut model: Vec<u8> = Vec::new();
     let mut checked = 0usize;
     {
-        let mut w = Writer::new(Box::new(Sink { spec: c.sink.clone(), st: state.clone(), consecutive: 0 }));
+        let mut w = Writer::new(Box::new(Sink { spec: c.sink.clone(), st: state.clone(), consecutive: 0, burst_left: 0 }));
         for (i, op) in c.ops.iter().enumerate() {
             let pending = model.len() - state.borrow().log.len();
             let text = render(op);
@@ -293,6 +310,15 @@ pub fn run_case(c: &Case, buf: usize, buffered: bool) -> CaseResult {
         if c.end_with_flush {
             w.flush();
         }
+        if c.unwind {
+            // the writer goes out of scope while the stack unwinds (resume_unwind: no panic hook, no message)
+            let r = std::panic::catch_unwind(std::panic::AssertUnwindSafe(move || {
+                let _w = w;
+                std::panic::resume_unwind(Box::new("harness: unwinding on purpose"));
+            }));
+            debug_assert!(r.is_err());
+            st.label("writer-dropped-by-unwinding");
+        }
         // drop flushes
     }
     let s = state.borrow();
@@ -329,7 +355,7 @@ fn short(op: &W) -> String {
 /// Discover the buffer size black-box: single-byte writes until the sink sees its first delivery.
 pub fn discover_buf() -> usize {
     let state = Rc::new(RefCell::new(SinkState::default()));
-    let mut w = Writer::new(Box::new(Sink { spec: SinkSpec { kind: 0, param: 0, interrupts: vec![] }, st: state.clone(), consecutive: 0 }));
+    let mut w = Writer::new(Box::new(Sink { spec: SinkSpec { kind: 0, param: 0, interrupts: vec![], burst: 0 }, st: state.clone(), consecutive: 0, burst_left: 0 }));
     for _ in 0..(1 << 22) {
         w.write_char('x');
         let n = state.borrow().first_call_len;
@@ -357,7 +383,7 @@ pub fn run_roundtrip(c: &RtCase) -> CaseResult {
     let mut script = Vec::new();
     let mut want = Vec::new();
     {
-        let mut w = Writer::new(Box::new(Sink { spec: SinkSpec { kind: 0, param: 0, interrupts: vec![] }, st: state.clone(), consecutive: 0 }));
+        let mut w = Writer::new(Box::new(Sink { spec: SinkSpec { kind: 0, param: 0, interrupts: vec![], burst: 0 }, st: state.clone(), consecutive: 0, burst_left: 0 }));
         for (op, sep) in &c.items {
             match op {
                 W::Int(ty, t) => {
@@ -525,13 +551,17 @@ pub fn op(buf: usize) -> impl Strategy<Value = W> {
 
 pub fn sink() -> impl Strategy<Value = SinkSpec> {
     (prop_oneof![3 => Just(0u8), 2 => Just(1u8), 1 => Just(2u8), 2 => Just(3u8)], prop_oneof![1u16..8, 1u16..5000, Just(u16::MAX)], prop_oneof![3 => Just(vec![]), 2 => prop::collection::vec(0u16..20, 1..5)])
-        .prop_map(|(kind, param, interrupts)| SinkSpec { kind, param, interrupts })
+        .prop_flat_map(|(kind, param, interrupts)| {
+            // an interruption may repeat more than a thousand times before the sink makes progress
+            let burst = if interrupts.is_empty() { Just(0u16).boxed() } else { prop_oneof![6 => Just(0u16), 1 => Just(1024u16), 1 => Just(1025u16), 1 => Just(1500u16), 1 => Just(5000u16)].boxed() };
+            burst.prop_map(move |burst| SinkSpec { kind, param, interrupts: interrupts.clone(), burst })
+        })
 }
 
 pub fn case(buf: usize, max_ops: usize) -> impl Strategy<Value = Case> {
-    (prop::collection::vec(op(buf), 0..max_ops), sink(), any::<bool>()).prop_map(|(ops, sink, end_with_flush)| {
+    (prop::collection::vec(op(buf), 0..max_ops), sink(), any::<bool>(), prop_oneof![3 => Just(false), 1 => Just(true)]).prop_map(|(ops, sink, end_with_flush, unwind)| {
         // a 1-byte-per-call sink with several 100 KiB of output is slow but fine; keep as is
-        Case { ops, sink, end_with_flush }
+        Case { ops, sink, end_with_flush, unwind }
     })
 }
 
@@ -544,7 +574,7 @@ pub fn decode(data: &[u8], buf: usize) -> Option<Case> {
     if data.len() < 3 {
         return None;
     }
-    let sink = SinkSpec { kind: data[0] & 3, param: 1 + (data[1] as u16) * 17, interrupts: if data[0] & 4 != 0 { vec![(data[0] >> 4) as u16, (data[1] >> 3) as u16] } else { vec![] } };
+    let sink = SinkSpec { kind: data[0] & 3, param: 1 + (data[1] as u16) * 17, interrupts: if data[0] & 4 != 0 { vec![(data[0] >> 4) as u16, (data[1] >> 3) as u16] } else { vec![] }, burst: if data[0] & 8 != 0 && data[1] & 1 == 1 { 1500 } else { 0 } };
     let end_with_flush = data[2] & 1 == 1;
     let mut ops = Vec::new();
     for b in data[3..].chunks_exact(10) {
@@ -589,7 +619,7 @@ pub fn decode(data: &[u8], buf: usize) -> Option<Case> {
         sink.kind = 1;
         sink.param = 509 + sink.param % 1000;
     }
-    Some(Case { ops, sink, end_with_flush })
+    Some(Case { ops, sink, end_with_flush, unwind: data[2] & 6 == 6 })
 }
 
 // ---------------------------------------------------------------------------------------------
@@ -613,7 +643,7 @@ pub fn run_macros(c: &MacroCase, buf: usize) -> CaseResult {
         #[allow(unused_imports)]
         use rlib_io::*; // the way the library is meant to be used: the helper macros are exported at the crate root
         let reader = rlib_io::Reader::new(Box::new(&b""[..]));
-        let writer = Writer::new(Box::new(Sink { spec: SinkSpec { kind: 3, param: 5, interrupts: vec![1] }, st: state.clone(), consecutive: 0 }));
+        let writer = Writer::new(Box::new(Sink { spec: SinkSpec { kind: 3, param: 5, interrupts: vec![1], burst: 0 }, st: state.clone(), consecutive: 0, burst_left: 0 }));
         rlib_io::make_output_macro!(reader, writer);
         // leave buf - pad bytes pending so that the macro output straddles the buffer boundary (buffered builds)
         let filler = "#".repeat(buf.saturating_sub(c.pad as usize % 64));
